@@ -12,15 +12,20 @@ fn rand_vec(rng: &mut Rng, dim: usize, flavour: u64) -> Vec<f32> {
     (0..dim)
         .map(|_| match flavour {
             0 => 0.0,
-            1 => if rng.chance(1, 2) { 1.0e18 } else { -1.0e18 },
+            // +-1e18 keeps squared distances finite in f32; +-3e19 makes them overflow to +inf (still a frame that has to be returned)
+            1 => rng.pick(&[1.0e18f32, -1.0e18, 1.0e18, -1.0e18, 3.0e19, -3.0e19]),
             2 => (rng.below(3) as f32) - 1.0, // many ties
             _ => ((rng.f32_unit() * 2.0 - 1.0) * 1000.0).round() / 1000.0,
         })
         .collect()
 }
 
+/// L2 distance in f64. A distance whose square does not fit an f32 is +inf: the index computes in f32, all such frames are
+/// "infinitely far" ties for it, and demanding an order among them would ask for more than f32 arithmetic can give. (They
+/// still have to be returned: the hit count is judged as before.)
 fn dist64(a: &[f32], b: &[f32]) -> f64 {
-    a.iter().zip(b).map(|(x, y)| { let d = f64::from(*x) - f64::from(*y); d * d }).sum::<f64>().sqrt()
+    let sq = a.iter().zip(b).map(|(x, y)| { let d = f64::from(*x) - f64::from(*y); d * d }).sum::<f64>();
+    if sq > f64::from(f32::MAX) { f64::INFINITY } else { sq.sqrt() }
 }
 
 fn put_embedded(mem: &mut Memvid, i: usize, emb: Vec<f32>) -> Result<u64, MemvidError> {
@@ -88,14 +93,14 @@ pub fn c13(rep: &mut Report, scratch: &std::path::Path, rng: &mut Rng, cases: u6
                 continue;
             }
             // reported distance agrees with the definition
-            if let Some(h) = hits.iter().find(|h| { let r = dist64(&q, &embs[h.frame_id as usize]); (f64::from(h.distance) - r).abs() > r * 1e-4 + 1e-6 }) {
+            if let Some(h) = hits.iter().find(|h| { let r = dist64(&q, &embs[h.frame_id as usize]); if r.is_infinite() { !h.distance.is_infinite() && f64::from(h.distance) < 1.0e19 } else { (f64::from(h.distance) - r).abs() > r * 1e-4 + 1e-6 } }) {
                 rep.violation("C13:reported-distance-wrong", format!("frame {} reported at {}, L2 is {}", h.frame_id, h.distance, dist64(&q, &embs[h.frame_id as usize])), d.clone());
                 continue;
             }
             if let Some(last) = hits.last() {
                 let last_d = dist64(&q, &embs[last.frame_id as usize]);
                 // relative guard against f32 rounding: only a clearly closer omitted frame counts
-                if let Some((i, _)) = embs.iter().enumerate().find(|(i, e)| !ids.contains(&(*i as u64)) && dist64(&q, e) < last_d * (1.0 - 1e-5) - 1e-9) {
+                if let Some((i, _)) = embs.iter().enumerate().find(|(i, e)| !ids.contains(&(*i as u64)) && (if last_d.is_infinite() { dist64(&q, e).is_finite() } else { dist64(&q, e) < last_d * (1.0 - 1e-5) - 1e-9 })) {
                     rep.violation("C13:closer-frame-omitted", format!("frame {i} at distance {} is omitted, last hit is at {last_d}", dist64(&q, &embs[i])), d.clone());
                     continue;
                 }
@@ -234,6 +239,21 @@ pub fn c14(rep: &mut Report, scratch: &std::path::Path, rng: &mut Rng, sizes: &[
                         o.auto_tag = false;
                         o.extract_triplets = false;
                         if m.put_bytes_with_options(b"pending plain", o).is_ok() { log.push(json!({"op": "put-pending", "emb": false})); frames.push((FrameStatus::Active, None)); }
+                    }
+                    if rng.chance(1, 2) {
+                        // a record larger than the 64 KiB log: the log region grows (everything behind it, the committed vector
+                        // index included, is moved) and the crash comes before the next commit
+                        let e = next_emb(rng);
+                        let mut big = rng.bytes(70_000);
+                        big[0] = 0xFF;
+                        let mut o = PutOptions::default();
+                        o.instant_index = false;
+                        o.auto_tag = false;
+                        o.extract_triplets = false;
+                        match m.put_with_embedding_and_options(&big, e.clone(), o) {
+                            Ok(_) => { log.push(json!({"op": "put-pending-growing-the-log", "emb": true})); frames.push((FrameStatus::Active, Some(e))); rep.count("crash_replays_after_log_growth"); }
+                            Err(err) => { rep.violation("C14:put-failed", err.to_string(), detail(&log)); break; }
+                        }
                     }
                     let image = path.with_extension("crashimg");
                     if std::fs::copy(&path, &image).is_err() { rep.inconclusive(json!({"reason": "cannot copy the file for a crash image"})); break; }
